@@ -1,3 +1,10 @@
 #!/bin/sh
+# Build the two fact extractors offline and warm the dependency target dir.
 set -e
 cd "$(dirname "$0")"
+export CARGO_NET_OFFLINE=true
+(cd tools/ilfacts && cargo build --offline --release 2>&1 | tail -2)
+(cd tools/ilsyn && cargo build --offline --release 2>&1 | tail -2)
+# one extraction: checks the repository's dependencies with plain rustc (cached in
+# .cache/target) and leaves the facts of the current tree in .cache/facts/<hash>
+python3 ilcheck_lib/extract.py
